@@ -2,24 +2,37 @@
 import random
 
 from .core import core_check
+from .. import seqedit_replay
 from ..render_core import LAYOUTS
+
+
+def _seqedit(chk):
+    # element edits of displays / calls (spec/ISSeqEdit.tla) replayed into the real apply_all
+    seqedit_replay.run(chk, stride=4 if chk.quick else 1)
 
 
 def _layout(run):
     rng = random.Random(run["h"])
     k = rng.choice([0, 1, 1, 2, 2, 3])
     attrs = sorted(rng.sample(LAYOUTS, k))
+    attrs = sorted(set(attrs))
     if "crlf" in attrs and "cr" in attrs:
+        attrs.remove("cr")
+    if "latin1" in attrs and "cr" in attrs:
+        # (old-Mac line ends together with an encoding declaration: the declaration line never ends for the
+        #  line-based readers of the standard library; not exercised, see DESIGN section 9)
         attrs.remove("cr")
     run["layout"] = attrs
     run["id"] += "@" + "+".join(attrs)
 
 
 def run():
-    chk = core_check("C03", quick_keep=12, thorough_keep=4, annotate=_layout)
+    chk = core_check("C03", quick_keep=12, thorough_keep=4, annotate=_layout, extra=_seqedit)
     if isinstance(chk, int):
         return chk
     return chk.finish(
         rule="every session case of the per-site model (all operations, hand-written and canonical entries, every "
              "approved set) is executed; the rewritten module must parse, keep its snapshot() calls, and be "
-             "byte-identical outside the call parentheses (span location by an independent tokenizer pass)")
+             "byte-identical outside the call parentheses (span location by an independent tokenizer pass); every "
+             "(container source, edit) case of ISSeqEdit is handed to the real apply_all: valid Python, exactly the "
+             "expected elements, kept elements verbatim, nothing outside the display")
